@@ -292,6 +292,9 @@ def r4_parse_before_write(ctx, res):
     alr = ctx.repo.func('_add', '_add_lexical_resource')
     reach, covered, withs = covered_functions(ctx, _entries(ctx))
     parse_funcs = {'lmf.load', 'lmf.scan_lexicons', 'lmf._make_parser', '_add._precheck'}
+    if not withs.get(alr.key):
+        res.inst('parse-outside-txn', alr.module.loc(alr.node), 'transaction block of _add_lexical_resource')
+        res.find('parse-outside-txn', alr.module.loc(alr.node), '_add_lexical_resource no longer brackets its writes in a `with <connection>` block')
     for w in withs.get(alr.key, []):
         ext = extent(ctx, alr, w)
         for pk in sorted(parse_funcs):
